@@ -1420,6 +1420,16 @@ class FoldConstantsPass(ir.passes.InPlacePass):
                 if replacement is None:
                     return None
                 return Replacement(replacement.outputs, [replacement])
+            assert node.graph is not None
+            # Nodes of an inlined If branch keep their value names: a second inlined branch may
+            # produce a value with the name of an initializer that was folded from the first.
+            # Give the folded value a fresh name before it becomes an initializer.
+            folded_value = node.outputs[0]
+            if folded_value.name in node.graph.initializers:
+                suffix = 1
+                while f"{folded_value.name}_{suffix}" in node.graph.initializers:
+                    suffix += 1
+                folded_value.name = f"{folded_value.name}_{suffix}"
             new_initializer_value = self.new_initializer(node, outputs)
             if new_initializer_value is None:
                 return None
